@@ -6,7 +6,7 @@ export VERIF_OUT_ROOT=/verif/out/thorough
 cp /verif/target/release/check /verif/out/thorough/check.bin
 for p in $props; do
   t0=$(date +%s)
-  timeout 7200 /verif/out/thorough/check.bin $p --tier thorough > /verif/out/thorough/$p.log 2>&1
+  timeout ${THOROUGH_TIMEOUT:-7200} /verif/out/thorough/check.bin $p --tier thorough > /verif/out/thorough/$p.log 2>&1
   c=$?
   t1=$(date +%s)
   echo "$p exit=$c $((t1-t0))s $(grep -E 'VIOLATION|INCONCLUSIVE' /verif/out/thorough/$p.log | head -1 | cut -c1-200)"
